@@ -331,7 +331,12 @@ impl CallStack {
         let context_element = self
             .get_callstack_mut()
             .get_mut((context_index - 1) as usize)
-            .unwrap();
+            .ok_or_else(|| {
+                StoryError::InvalidStoryState(format!(
+                    "Could not find the call stack frame of temporary variable: {}",
+                    name
+                ))
+            })?;
 
         if !declare_new && !context_element.temporary_variables.contains_key(&name) {
             return Err(StoryError::InvalidStoryState(format!(
@@ -377,10 +382,11 @@ impl CallStack {
             context_index = self.get_current_element_index() + 1;
         }
 
-        let context_element = self.get_callstack().get((context_index - 1) as usize);
-        let var_value = context_element.unwrap().temporary_variables.get(name);
+        // A pointer to a temporary that was never declared carries context 0
+        // (it was taken for a global): there is no such frame, so no value.
+        let context_element = self.get_callstack().get((context_index - 1) as usize)?;
 
-        var_value.cloned()
+        context_element.temporary_variables.get(name).cloned()
     }
 
     pub fn push(
